@@ -17,14 +17,13 @@ From ND.proofs Require Import C14_batch C13_lists C13_comb.
    [fform g], exactly the transposition of the specified rows: the coordinates of one point
    sit at one index in every dimension, through every combinator.
 
-   Named _partial because two clauses of [ok] are restrictions forced by recorded findings
-   (known_findings.d/C13.json, findings/F_C13_findings.v):
-     - ok_resample demands that the drawn indices lie inside the draw actually obtained.
-       FULL-STRENGTH statement (false): this follows from [rperm r k] being a permutation of
-       range(size_at g k); refuted for g = Filter ..., where size_at is stale -> IndexError.
-     - ok_transN demands dims g = 1.  FULL-STRENGTH statement (false): TransformGenerator(g)
-       without maps is the identity for every g; refuted for dims g >= 2 -> TypeError. *)
-Theorem C13_rows_paired_partial :
+   No restriction from a finding remains: the three recorded defects are repaired
+   (184d471, e57b511 and the follow-up fix of ResampleGenerator, which now asks the RNG for indices
+   below the number of rows actually returned).  [ok] contains only the preconditions the
+   property itself states (listed above) and the RNG contract (randperm(n) is a list of length n
+   with entries below n; randint(n, (size,)) has `size` entries below n), from which "the indices
+   lie inside the draw" is DERIVED for every child. *)
+Theorem C13_rows_paired :
   forall (draw : nat -> nat -> list row) (mask : nat -> nat -> list bool)
          (rperm rint : nat -> nat -> list nat) (tvec : nat -> row -> row) (tmulti : nat -> list row -> out)
          (ldims : nat -> nat) (tfun : nat -> Z -> Z) (trow : nat -> row -> row) (tdims : nat -> nat -> nat)
@@ -35,7 +34,7 @@ Theorem C13_rows_paired_partial :
         tmulti t (transpose d rows) = (tform t d, transpose (tdims t d) (map (trow t) rows)) /\
         Forall (width (tdims t d)) (map (trow t) rows) /\ 1 <= tdims t d /\ (tform t d = FT -> tdims t d = 1)) ->
     forall (g : gen) (k : nat),
-      ok draw mask rperm rint tvec tmulti ldims tfun trow tdims tform g k ->
+      ok draw mask rperm rint ldims tfun trow tdims tform g k ->
       sample draw mask rperm rint tvec tmulti g k =
       Some (fform ldims tdims tform g, transpose (dims ldims tdims g) (rsem draw mask rperm rint ldims tfun trow g k))
       /\ Forall (width (dims ldims tdims g)) (rsem draw mask rperm rint ldims tfun trow g k)
@@ -137,13 +136,13 @@ Theorem C13_transform_callable_rows :
       Some (tform t d, transpose (tdims t d) (map (trow t) R)).
 Proof. exact transF_rows. Qed.
 
-(* TransformGenerator(g) without maps: identity on one-dimensional g (restricted, see the header comment) *)
-Theorem C13_transform_default_partial :
+(* TransformGenerator(g) without maps: the identity, for any number of dimensions (fix e57b511) *)
+Theorem C13_transform_default :
   forall (draw : nat -> nat -> list row) (mask : nat -> nat -> list bool)
          (rperm rint : nat -> nat -> list nat) (tvec : nat -> row -> row) (tmulti : nat -> list row -> out)
-         (g : gen) (k : nat) (R : list row) (f : form),
-    sample draw mask rperm rint tvec tmulti g k = Some (f, transpose 1 R) ->
-    sample draw mask rperm rint tvec tmulti (TransformN g) k = Some (FT, transpose 1 R).
+         (g : gen) (k d : nat) (R : list row) (f : form),
+    sample draw mask rperm rint tvec tmulti g k = Some (f, transpose d R) ->
+    sample draw mask rperm rint tvec tmulti (TransformN g) k = Some (match d with 1 => FT | _ => FU end, transpose d R).
 Proof. exact transN_rows. Qed.
 
 (* filter keeps exactly the rows passing the mask; their number is the number of true bits ... *)
@@ -168,22 +167,42 @@ Theorem C13_filter_size_update :
     size_at draw mask rperm rint tvec tmulti (Filter g m s true) (S k) = length c.
 Proof. exact filter_size_after. Qed.
 
-(* resample returns rows of ONE underlying draw (the child's k-th), at the drawn indices
-   (restricted to indices inside the draw, see the header comment) ... *)
-Theorem C13_resample_rows_partial :
-  forall (draw : nat -> nat -> list row) (mask : nat -> nat -> list bool)
-         (rperm rint : nat -> nat -> list nat) (tvec : nat -> row -> row) (tmulti : nat -> list row -> out)
-         (g : gen) (r : nat) (sz : option nat) (repl : bool) (k d : nat) (R : list row) (f : form),
+(* resample returns rows of ONE underlying draw (the child's k-th), at the drawn indices, which lie
+   inside that draw for ANY answer randperm(n) / randint(n, (size,)) can give, n = the number of rows of the
+   draw just taken.  FULL strength, any child (leaf, filter, a combinator above a filter, ...) *)
+Theorem C13_resample_rows :
+  forall (draw : nat -> nat -> list row) (mask : nat -> nat -> list bool) (rperm rint : nat -> nat -> list nat)
+         (tvec : nat -> row -> row) (tmulti : nat -> list row -> out) (g : gen) (r : nat)
+         (sz : option nat) (repl : bool) (k d : nat) (R : list row) (f : form),
     sample draw mask rperm rint tvec tmulti g k = Some (f, transpose d R) ->
+    1 <= d ->
     (if repl
-     then length (rint r k) = rsize g sz /\
-          Forall (fun i : nat => i < size_at draw mask rperm rint tvec tmulti g k) (rint r k)
-     else length (rperm r k) = size_at draw mask rperm rint tvec tmulti g k) ->
-    Forall (fun i : nat => i < length R) (ridx rperm rint g r sz repl k) ->
+     then length (rint r k) = rsize g sz /\ Forall (fun i : nat => i < length R) (rint r k)
+     else length (rperm r k) = length R /\ Forall (fun i : nat => i < length R) (rperm r k)) ->
     sample draw mask rperm rint tvec tmulti (Resample g r sz repl) k =
     Some (match f with FT => FT | _ => FL end,
-          transpose d (map (fun i : nat => nth i R nil) (ridx rperm rint g r sz repl k))).
+          transpose d (map (fun i : nat => nth i R nil) (ridx rperm rint g r sz repl k))) /\
+    Forall (fun i : nat => i < length R) (ridx rperm rint g r sz repl k).
 Proof. exact resample_rows. Qed.
+
+(* in particular directly above a filter (either update_size setting): n is the number of rows the filter has just kept *)
+Theorem C13_resample_over_filter :
+  forall (draw : nat -> nat -> list row) (mask : nat -> nat -> list bool) (rperm rint : nat -> nat -> list nat)
+         (tvec : nat -> row -> row) (tmulti : nat -> list row -> out) (g : gen) (m : nat)
+         (s : option nat) (u : bool) (r : nat) (sz : option nat) (repl : bool) (k d : nat)
+         (R : list row) (f : form),
+    sample draw mask rperm rint tvec tmulti g k = Some (f, transpose d R) ->
+    1 <= d ->
+    length (mask m k) = length R ->
+    let F := Filter g m s u in
+    let R' := select (mask m k) R in
+    (if repl
+     then length (rint r k) = rsize F sz /\ Forall (fun i : nat => i < length R') (rint r k)
+     else length (rperm r k) = length R' /\ Forall (fun i : nat => i < length R') (rperm r k)) ->
+    sample draw mask rperm rint tvec tmulti (Resample F r sz repl) k =
+    Some (match d with 1 => FT | _ => FL end,
+          transpose d (map (fun i : nat => nth i R' nil) (ridx rperm rint F r sz repl k))).
+Proof. exact resample_over_filter. Qed.
 
 (* ... pairwise distinct positions without replacement *)
 Theorem C13_resample_distinct :
@@ -239,7 +258,7 @@ Theorem C13_size_of_columns :
         tmulti t (transpose d rows) = (tform t d, transpose (tdims t d) (map (trow t) rows)) /\
         Forall (width (tdims t d)) (map (trow t) rows) /\ 1 <= tdims t d /\ (tform t d = FT -> tdims t d = 1)) ->
     forall (g : gen) (k : nat) (f : form) (cs : list row),
-      ok draw mask rperm rint tvec tmulti ldims tfun trow tdims tform g k ->
+      ok draw mask rperm rint ldims tfun trow tdims tform g k ->
       sized draw rperm rint g k ->
       sample draw mask rperm rint tvec tmulti g k = Some (f, cs) ->
       Forall (fun c : row => length c = csize g) cs.
